@@ -641,6 +641,9 @@ func (w *worker[T, JobType]) Pause() error {
 	switch s := w.status.Load(); s {
 	case running:
 		w.status.Store(paused)
+		// a caller parked in WaitUntilFinished because jobs were pending waits for the jobs in
+		// flight only from now on: with none in flight nothing else is going to wake it
+		w.releaseWaiters(w.curProcessing.Load())
 	case paused, stopped:
 		return nil
 	default:
@@ -694,6 +697,10 @@ func (w *worker[T, JobType]) stop(run context.Context) error {
 			if cancel != nil {
 				cancel()
 			}
+
+			// nothing was in flight, so no completion is going to wake the callers that parked in
+			// WaitUntilFinished while the worker was running with jobs pending
+			w.releaseWaiters(0)
 
 			return nil
 		}
